@@ -53,6 +53,11 @@ pub enum Fault {
     Rename { name: String },
     /// trailing bytes after the valid content
     Append { bytes: Vec<u8> },
+    /// format-aware damage that keeps the container's own checks valid: one field of a tar member header (name,
+    /// mode, uid, gid, size, mtime, type flag, link name, magic, user name) set to an extreme value (base-256
+    /// maximum, base-256 2^62, octal maximum, blanks, NULs, 0xFF) with the header checksum recomputed; for gzip the
+    /// MTIME/XFL/OS header bytes, the flag bits and the ISIZE trailer. Other content: the first 16 bytes.
+    Header { field: u8, kind: u8 },
 }
 
 #[derive(Clone, Debug, Serialize, Deserialize)]
@@ -177,6 +182,84 @@ fn build_damaged(case: &Case, dir: &std::path::Path) -> Result<(std::path::PathB
             name = format!("zdamaged-{}", nn);
             format!("valid content stored as {}", nn)
         }
+        Fault::Header { field, kind } => {
+            const TAR_FIELDS: &[(&str, usize, usize)] = &[("name", 0, 100), ("mode", 100, 8), ("uid", 108, 8), ("gid", 116, 8), ("size", 124, 12), ("mtime", 136, 12), ("typeflag", 156, 1), ("linkname", 157, 100), ("magic", 257, 6), ("uname", 265, 32)];
+            let headers: Vec<usize> = (0..data.len() / 512).map(|b| b * 512).filter(|&o| data.len() >= o + 512 && &data[o + 257..o + 262] == b"ustar").collect();
+            if !headers.is_empty() {
+                let o = headers[(*field as usize >> 4) % headers.len()];
+                let (fname, fo, fl) = TAR_FIELDS[(*field as usize & 15) % TAR_FIELDS.len()];
+                let f = &mut data[o + fo..o + fo + fl];
+                let what = match kind % 6 {
+                    0 => {
+                        f.fill(0xFF);
+                        f[0] = 0x80;
+                        "base-256 maximum"
+                    }
+                    1 => {
+                        f.fill(0);
+                        f[0] = 0x80;
+                        if fl >= 9 {
+                            f[fl - 8] = 0x40;
+                        }
+                        "base-256 2^62"
+                    }
+                    2 => {
+                        f.fill(b'7');
+                        f[fl - 1] = 0;
+                        "octal maximum"
+                    }
+                    3 => {
+                        f.fill(b' ');
+                        "blanks"
+                    }
+                    4 => {
+                        f.fill(0);
+                        "NULs"
+                    }
+                    _ => {
+                        f.fill(0xFF);
+                        "0xFF"
+                    }
+                };
+                // recompute the header checksum so that the archive stays well-formed
+                data[o + 148..o + 156].fill(b' ');
+                let sum: u32 = data[o..o + 512].iter().map(|&b| b as u32).sum();
+                data[o + 148..o + 156].copy_from_slice(format!("{:06o}\0 ", sum).as_bytes());
+                format!("tar header at {}: {} = {} (checksum recomputed)", o, fname, what)
+            } else if data.len() >= 18 && data[0] == 0x1f && data[1] == 0x8b {
+                let n = data.len();
+                match field % 5 {
+                    0 => {
+                        data[4..8].fill(0xFF);
+                        "gzip MTIME = 0xFFFFFFFF".to_string()
+                    }
+                    1 => {
+                        data[8] = *kind;
+                        data[9] = kind.wrapping_mul(7);
+                        "gzip XFL/OS changed".to_string()
+                    }
+                    2 => {
+                        data[n - 4..].fill(if kind % 2 == 0 { 0 } else { 0xFF });
+                        format!("gzip ISIZE = {}", if kind % 2 == 0 { "0" } else { "0xFFFFFFFF" })
+                    }
+                    3 => {
+                        data[3] |= 1 << (kind % 8);
+                        format!("gzip flag bit {} set", kind % 8)
+                    }
+                    _ => {
+                        data[n - 8..n - 4].fill(*kind);
+                        "gzip CRC32 overwritten".to_string()
+                    }
+                }
+            } else {
+                for (k, b) in data.iter_mut().take(16).enumerate() {
+                    if k as u8 % 3 == kind % 3 {
+                        *b = b.wrapping_add(*field | 1);
+                    }
+                }
+                "first 16 bytes altered".to_string()
+            }
+        }
     };
     let p = dir.join(&name);
     std::fs::write(&p, &data).map_err(|e| e.to_string())?;
@@ -189,7 +272,7 @@ impl Property for C07 {
         "C07"
     }
     fn rule(&self) -> String {
-        "case = a valid starting file of every kind (generated text log or accounting-record file in plain/gz/bz2/xz/lz4/tar; shipped evtx, journals and their gz/xz/bz2/lz4/tar forms; random byte strings of lengths {0,1,5,6,7,8,11,12,63,64,65,384,4096,70000} under log-like names) x fault (truncation inside the first 16 bytes / the last 16 bytes (trailers, size fields) / anywhere; 1..8 corrupted bytes in the same regions; up to 4 KiB filled with 0x00 or 0xFF; valid content stored under a mismatching name such as text as x.journal, records as x.evtx.gz, gz as x.tar) x 0..3 well-formed neighbour text sources x position of the damaged file among the arguments. oracle: exit status 0 or 1, no fatal signal, no `panicked at` on stderr, ends within the watchdog (a stalled process is a deadlock), and the lines attributed (through -n) to the neighbours equal the neighbours' reference merge, complete and in order. non-trivial = the fault changes what s4 reports (stderr or stdout differs from the fault-free run of the same base) and >= 1 neighbour is present; distinct = hash(case).".into()
+        "case = a valid starting file of every kind (generated text log or accounting-record file in plain/gz/bz2/xz/lz4/tar; shipped evtx, journals and their gz/xz/bz2/lz4/tar forms; random byte strings of lengths {0,1,5,6,7,8,11,12,63,64,65,384,4096,70000} under log-like names) x fault (truncation inside the first 16 bytes / the last 16 bytes (trailers, size fields) / anywhere; 1..8 corrupted bytes in the same regions; up to 4 KiB filled with 0x00 or 0xFF; valid content stored under a mismatching name such as text as x.journal, records as x.evtx.gz, gz as x.tar; format-aware header damage that keeps the container's own checks valid: a tar member header field set to an extreme value with the checksum recomputed, gzip MTIME/XFL/OS/flag bits/ISIZE/CRC) x 0..3 well-formed neighbour text sources x position of the damaged file among the arguments. oracle: exit status 0 or 1, no fatal signal, no `panicked at` on stderr, ends within the watchdog (a stalled process is a deadlock), and the lines attributed (through -n) to the neighbours equal the neighbours' reference merge, complete and in order. non-trivial = the fault changes what s4 reports (stderr or stdout differs from the fault-free run of the same base) and >= 1 neighbour is present; distinct = hash(case).".into()
     }
     fn assumptions(&self) -> Vec<String> {
         vec!["neighbour lines are recognised by their file-name prefix (-n); the damaged file has another name".into(), "coverage-guided fuzzing of the readers is a separate thorough-tier campaign (harness/fuzz)".into()]
@@ -249,6 +332,7 @@ impl Property for C07 {
             2 => (any::<u16>(), 1u16..4096, prop::sample::select(vec![0u8, 0xff])).prop_map(|(pos, len, value)| Fault::Fill { pos, len, value }),
             3 => prop::sample::select(MISMATCH_NAMES.to_vec()).prop_map(|n| Fault::Rename { name: n.to_string() }),
             2 => prop::collection::vec(any::<u8>(), 1..=12).prop_map(|bytes| Fault::Append { bytes }),
+            4 => (any::<u8>(), any::<u8>()).prop_map(|(field, kind)| Fault::Header { field, kind }),
         ];
         (base, fault, 0u8..4, any::<u8>()).prop_map(|(base, fault, neighbours, position)| Case { base, fault, neighbours, position }).boxed()
     }
@@ -330,6 +414,7 @@ impl Property for C07 {
             Fault::Fill { .. } => "fault:fill",
             Fault::Rename { .. } => "fault:name-mismatch",
             Fault::Append { .. } => "fault:append",
+            Fault::Header { .. } => "fault:header-field",
         });
         if out.status == Some(1) {
             o = o.class("exit-status-1");
